@@ -142,6 +142,7 @@ def jobs(tier):
     out.append(Job('C09', 's1.bridge', t_bridge, {}, witnesses=('bridged copy', 'bridged object')))
     out += matrix_jobs('C09', 'm1', tier)
     out += matrix_jobs('C09', 'm3', tier)
+    out += matrix_jobs('C09', 'm4', tier)
     return flat(out)
 
 
